@@ -21,7 +21,7 @@ var (
 	c09Depths = []int{0, 1, 2, 3, 5, 8, 12}
 	c09Nest   = []int{1, 2, 4, 8, 12, 70}
 	c09Locals = []int{0, 1, 3, 8}
-	c09Shapes = []string{"plain", "call-in-try", "early-return-in-loop", "break-in-loop", "throw-caught-per-iteration", "throw-with-pending-operands"}
+	c09Shapes = []string{"plain", "call-in-try", "early-return-in-loop", "break-in-loop", "throw-caught-per-iteration", "throw-with-pending-operands", "recursion-through-function-value", "recursion-through-closure-in-list"}
 
 	c09CallLims  = []uint{1, 2, 3, 4, 6, 8, 12, 16, 100}
 	c09StackLims = []uint{1, 2, 4, 8, 16, 64, 500}
@@ -44,12 +44,22 @@ func c09Program(d, e, v int, shape string, n int) *hs.Program {
 		expr = hs.Bin("+", hs.I(1), expr)
 	}
 	recBody = append(recBody, hs.ES(&hs.If{Cond: hs.Bin("==", hs.V("k"), hs.I(0)), Then: hs.Blk(nil, &hs.Return{X: expr})}))
-	rec := hs.Fn("rec", hs.TInt, hs.Blk(hs.Bin("+", hs.CallN("rec", hs.Bin("-", hs.V("k"), hs.I(1))), hs.I(1)), recBody...), hs.P("k", hs.TInt))
+	recCall := hs.CallN("rec", hs.Bin("-", hs.V("k"), hs.I(1)))
+	switch shape {
+	case "recursion-through-function-value":
+		// every call on the recursive cycle goes through a local holding the function
+		recBody = append(recBody, hs.LetS("fv", hs.V("rec")))
+		recCall = hs.CallN("fv", hs.Bin("-", hs.V("k"), hs.I(1)))
+	case "recursion-through-closure-in-list":
+		recBody = append(recBody, hs.LetS("fl", hs.List(hs.V("rec"))))
+		recCall = hs.CallE(hs.Idx(hs.V("fl"), hs.I(0)), hs.Bin("-", hs.V("k"), hs.I(1)))
+	}
+	rec := hs.Fn("rec", hs.TInt, hs.Blk(hs.Bin("+", recCall, hs.I(1)), recBody...), hs.P("k", hs.TInt))
 	call := hs.ES(hs.Asg("+=", hs.V("total"), hs.CallN("rec", hs.I(int64(d)))))
 	var loopBody []hs.Stmt
 	funcs := []*hs.Func{rec}
 	switch shape {
-	case "plain":
+	case "plain", "recursion-through-function-value", "recursion-through-closure-in-list":
 		loopBody = []hs.Stmt{call}
 	case "call-in-try":
 		loopBody = []hs.Stmt{hs.ES(&hs.Try{Body: hs.Blk(nil, call), Var: "e", Catch: hs.Blk(nil, hs.Println(hs.S("caught")))})}
